@@ -202,6 +202,10 @@ func (rc *realController) CalculateBatchContext(release *v1beta1.BatchRelease) (
 		}
 	}
 	desired, _ := intstr.GetScaledValueFromIntOrPercent(&desiredSurge, int(rc.Replicas), true)
+	// a batch cannot call for more updated pods than the workload has
+	if desired > int(rc.Replicas) {
+		desired = int(rc.Replicas)
+	}
 
 	batchContext := &batchcontext.BatchContext{
 		Pods:           rc.pods,
